@@ -169,9 +169,13 @@ def _on_alarm(signum, frame):
 
 def run_with_timeout(mod, case, acc):
     """Run one case; non-termination is an observation, not a hang."""
+    # the limit is CPU time of this process (a loaded machine must not turn
+    # a slow case into an alarm); wall-clock time is only a distant backstop
     limit = float(getattr(mod, 'CASE_TIMEOUT', 20))
+    signal.signal(signal.SIGPROF, _on_alarm)
     signal.signal(signal.SIGALRM, _on_alarm)
-    signal.setitimer(signal.ITIMER_REAL, limit)
+    signal.setitimer(signal.ITIMER_PROF, limit)
+    signal.setitimer(signal.ITIMER_REAL, 20 * limit)
     try:
         mod.run_case(case, acc)
     except CaseTimeout as exc:
@@ -181,6 +185,7 @@ def run_with_timeout(mod, case, acc):
         acc.ev()
         exception_violation(acc, case, exc)
     finally:
+        signal.setitimer(signal.ITIMER_PROF, 0)
         signal.setitimer(signal.ITIMER_REAL, 0)
 
 
